@@ -163,6 +163,10 @@ pub trait Registry: Sync + Send {
     }
     /// bare cores behind an adapter: Hc128Core, IsaacCore, Isaac64Core
     fn core_types(&self) -> Vec<&'static dyn GenType>;
+    /// the block cores of alignment 4 again, placed at an address that is 4 mod 8
+    fn core_types_placed_at_4(&self) -> Vec<&'static dyn GenType> {
+        Vec::new()
+    }
     /// JitterRng::new_with_timer over a scripted timer
     fn jitter(&self, script: Arc<TimerScript>) -> Box<dyn Gen>;
     /// like `jitter`, but `clone()` of the generator gets an independent cursor over the same
